@@ -26,6 +26,16 @@ func (dv *Router) ribUpdate(ns *table.NeighborState) {
 	dv.rib.DirtyResetNextHop(ns.Name)
 
 	for _, entry := range ns.Advert.Entries {
+		// Ignore malformed entries (the decoder leaves absent elements nil)
+		if entry == nil || entry.Destination == nil || entry.NextHop == nil {
+			continue
+		}
+
+		// Skip destinations advertised as unreachable (also keeps the addition below from wrapping around)
+		if entry.Cost >= config.CostInfinity {
+			continue
+		}
+
 		// Use the advertised cost by default
 		cost := entry.Cost + localCost
 
